@@ -54,6 +54,9 @@ class C15(Prop):
                 "fail_update": st.one_of(plan, plan, st.just([1]), st.just([1, 1])),  # incl. "the very first record write fails"
                 "fail_event": plan,
                 "ties": st.lists(st.integers(0, 7), max_size=4),
+                # the message of the exception a failing step raises: ordinary, EMPTY (raise RuntimeError() / a bare assert / an inner
+                # asyncio timeout), or several lines
+                "msg": st.sampled_from(["step b failed", "step b failed", "", "first line\nsecond line"]),
                 # an extra external event (one no step accepts) sent through the service at a generated instant, typically the very
                 # instant the run ends; its delivery runs in a fire-and-forget task and may land after the terminal write
                 "extra": st.sampled_from([None, None, ["end", 0], ["end", 0], ["end", -0.5], ["at", 0], ["at", 1], ["at", 2.5]]),
@@ -99,7 +102,7 @@ class C15(Prop):
             if case["d2"]:
                 await asyncio.sleep(case["d2"])
             if end in ("fail", "fail_retry", "policy_raises", "fail_while_sibling_runs"):
-                raise ge.GenError("step b failed")
+                raise ge.GenError(case.get("msg", "step b failed")) if case.get("msg", "x") else ge.GenError()
             if end == "nonevent":
                 return 12345
             if end in ("timeout", "cancel"):
@@ -242,7 +245,7 @@ class C15(Prop):
             elif status == "completed" and srv.canon(row.get("result")) != srv.canon(info.get("truth_result")):
                 r.v("stored_result_differs", **attrs)
             elif status == "failed" and not row.get("error"):
-                r.v("failed_without_error", **attrs)
+                r.v("failed_without_error", empty_exception_message=case.get("msg") == "", **attrs)
             if row.get("run_id") != info.get("run_id"):
                 r.v("handler_row_points_to_other_run", **attrs)
         # monotonicity of the stored status per run
@@ -257,6 +260,8 @@ class C15(Prop):
             r.classes.append("injected_write_failure")
         if case["again"]:
             r.classes.append("second_run_same_handler")
+        if case.get("msg") == "" and case["end"] in ("fail", "fail_retry", "policy_raises", "fail_while_sibling_runs"):
+            r.classes.append("failure_with_empty_message")
         if case.get("backoff") and inj:
             r.classes.append("write_retried_after_a_pause")
         if any("extra_sent_at" in i for i in obs["runs"]):
